@@ -56,12 +56,13 @@ class AsmWriter:
         # Determine the base and end addresses
         self.base_address = 16384
         self.end_address = 65535
+        addresses = [i.address for e in self.parser.memory_map for i in e.instructions if i.address is not None]
         if self.labels:
             self.base_address = min(self.labels)
-        elif self.parser.memory_map:
-            self.base_address = self.parser.memory_map[0].instructions[0].address
-        if self.parser.memory_map:
-            self.end_address = self.parser.memory_map[-1].instructions[-1].address
+        elif addresses:
+            self.base_address = addresses[0]
+        if addresses:
+            self.end_address = addresses[-1]
 
         self.lower = self.case == CASE_LOWER
 
